@@ -11,10 +11,34 @@ let isa_case _ line =
   Printf.printf "%s RR=%s WR=%s MR=%s MW=%s\n" (fmt_outcome r)
     (fmt_list (reads si)) (fmt_list (writes si)) (fmt_list (load_addrs si rr)) (fmt_list (store_addrs si rr))
 
+(* seq case: memsize \t regs \t meminit \t labels \t fuel \t prog (instr;instr;...) *)
+let seq_case _ line =
+  let f = fields line in
+  let memsize = int_of_string (String.trim f.(0)) in
+  let regs = Array.make 32 Z0 in
+  List.iter (fun (r, v) -> regs.(int_of_z r) <- v) (parse_pairs f.(1));
+  let mem = Array.make memsize Z0 in
+  List.iter (fun (a, v) -> mem.(int_of_z a) <- v) (parse_pairs f.(2));
+  let labels = parse_pairs f.(3) in
+  let fuel = int_of_string (String.trim f.(4)) in
+  let prog = List.map sinstr_of_string (List.filter (fun x -> String.trim x <> "") (String.split_on_char ';' f.(5))) in
+  let st = { regs = Array.to_list regs; mem = Array.to_list mem } in
+  match seq_run (nat_of_int fuel) prog (lookup labels) st with
+  | Done (st', tr) ->
+    let rs = List.mapi (fun i v -> (i, int_of_z v)) st'.regs in
+    let rs = List.filter (fun (i, v) -> v <> 0 && i <> 0) rs in
+    let ms = List.mapi (fun i v -> (i, int_of_z v)) st'.mem in
+    let ms = List.filter (fun (i, v) -> v <> int_of_z mem.(i)) ms in
+    let p l = String.concat "," (List.map (fun (a, b) -> Printf.sprintf "%d:%d" a b) l) in
+    Printf.printf "ok steps=%d r=%s m=%s\n" (List.length tr) (p rs) (p ms)
+  | Failed (e, tr) -> Printf.printf "err %s steps=%d\n" (err_name e) (List.length tr)
+  | OutOfFuel -> print_endline "outoffuel"
+
 let () =
   let cmd = Sys.argv.(1) and file = Sys.argv.(2) in
   let start = if Array.length Sys.argv > 3 then int_of_string Sys.argv.(3) else 0 in
   let h = match cmd with
     | "isa" -> isa_case
+    | "seq" -> seq_case
     | _ -> failwith ("unknown command " ^ cmd) in
   iter_lines file start h
